@@ -32,6 +32,7 @@ import (
 	"github.com/openGemini/openGemini/lib/metaclient"
 	"github.com/openGemini/openGemini/lib/raftlog"
 	"github.com/openGemini/openGemini/lib/util/lifted/hashicorp/serf/serf"
+	"github.com/openGemini/openGemini/lib/verifhook"
 	"go.etcd.io/etcd/raft/v3"
 	"go.etcd.io/etcd/raft/v3/raftpb"
 	"go.uber.org/zap"
@@ -266,6 +267,7 @@ func (n *RaftNode) sendRaftMessages() {
 		select {
 		case msg, ok := <-n.Messages:
 			if ok {
+				verifhook.Point("raft-before-send")
 				n.send(*msg)
 			} else {
 				n.logger.Info("RaftNode sendRaftMessages return")
@@ -362,11 +364,13 @@ func (n *RaftNode) serveChannels() {
 				break
 			}
 
+			verifhook.Point("raft-before-publish")
 			ok := n.PublishEntries(n.entriesToApply(rd.CommittedEntries))
 			if !ok {
 				n.Stop()
 				return
 			}
+			verifhook.Point("raft-after-publish")
 
 			n.logger.Debug("publish entries successful", zap.Duration("time used", time.Since(start)))
 			start = time.Now()
